@@ -638,3 +638,34 @@ contract(SW + 'LayerRenderer.render', props=['C14'],
          opaque=['combined_layers', '_render_raise_exceptions', '_render_capture_source_errors'],
          raises={'RequestError': True},
          trace=[_render_dispatch])
+
+
+# ---- per-source / request-wide clipping: the mask is drawn from the coverage cut to the image rectangle, for EVERY kind of coverage ----
+def _mask_from_coverage(ex, st, post, result):
+    import z3
+    from pyvc.values import VNone
+    cov = post.env['coverage']
+    tr = [e for i, e in T.evs(st, 'transform_to')]
+    it = [e for i, e in T.evs(st, 'intersection')]
+    fl = [e for i, e in T.evs(st, 'flatten_to_polygons')]
+    ok = len(tr) == 1 and tr[0].recv is not None and tr[0].recv.t.eq(cov.t) and tr[0].args[0] is post.env['bbox_srs'] \
+        and len(it) == 1 and it[0].recv is not None and it[0].recv.t.eq(tr[0].result.t) and it[0].args[0] is post.env['bbox'] \
+        and it[0].args[1] is post.env['bbox_srs']
+    yield ('coverage_is_cut_to_the_image_rectangle', z3.BoolVal(bool(ok)),
+           'the coverage is transformed to the SRS of the image and intersected with the image bbox')
+    g = z3.BoolVal(len(fl) <= 1)
+    for e in fl:
+        a = e.args[0]
+        isnone = a.isnone if hasattr(a, 'isnone') else z3.BoolVal(isinstance(a, VNone))
+        g = z3.And(g, z3.Not(isnone))
+    yield ('mask_geometry_exists_for_every_coverage', g,
+           'the polygons of the mask are never taken from a missing geometry: a coverage that is a plain rectangle (BBOXCoverage, '
+           'geom None) is masked by its rectangle, an empty intersection masks everything - clipping never fails')
+
+
+contract('mapproxy.image.mask:mask_polygons', props=['C14', 'C10'],
+         types=dict(bbox='opaque', bbox_srs='opaque', coverage='opaque'), returns='opaque', default_callee='opaque',
+         opaque_fields={'geom': 'opt[opaque]', 'bbox': 'opaque'}, stable_fields=['geom', 'bbox'],
+         opaque_spec={'transform_to': {'pure': True}, 'intersection': {'returns': 'opt[opaque]', 'pure': True},
+                      'flatten_to_polygons': {'pure': True}, 'bbox_polygon': {'pure': True}},
+         trace=[_mask_from_coverage])
